@@ -9,6 +9,7 @@ import MdpaxV.Model.Backup
 import MdpaxV.Model.Loop
 import MdpaxV.Model.Solvers
 import MdpaxV.Model.SemiAsync
+import MdpaxV.Model.Spaces
 open MdpaxV
 
 /-! parsing / printing -/
@@ -186,6 +187,11 @@ def handle (d : DState) (line : String) : Except String (DState × String) := do
         let TV := (List.range n).map (backup p.P 1 (look V))
         let resid := (vsub TV V).map fun x => rabs (x - gain)
         pure (d, s!"optok={optOk} polok={polOk} gainerr={fRat (rabs (gain - g))} polgap={fRat (g - gd)} resid={fRat (maxList resid)}")
+    | "space" => do
+        let mins ← pList pInt (← arg a "mins"); let maxs ← pList pInt (← arg a "maxs")
+        let sp := rangeSpace mins maxs
+        let ext := rangeSpace (mins.map (· - 2)) (maxs.map (· + 2))
+        pure (d, s!"space={fList2 toString sp} idx={fList toString (ext.map (indexFn mins maxs))}")
     | "qrow" => do
         let p ← getP d (← arg a "id")
         let γ ← pRat (← arg a "gamma"); let V ← pList pRat (← arg a "V"); let s ← pNat (← arg a "s")
